@@ -405,7 +405,7 @@ func pluginC12Impostor(args []string) {
 		serve = mk(ca.issue())
 	case "control":
 		serve = mk(certA)
-	case "plain":
+	case "plain", "noannounce-plain":
 		serve = nil
 	default:
 		os.Exit(2)
@@ -422,7 +422,7 @@ func pluginC12Impostor(args []string) {
 		proto = "netrpc"
 	}
 	announced := base64.RawStdEncoding.EncodeToString(a.Raw)
-	if cfg.Mode == "noannounce" {
+	if cfg.Mode == "noannounce" || cfg.Mode == "noannounce-plain" {
 		announced = ""
 	}
 	line := fmt.Sprintf("1|3|unix|%s|%s|%s", path, proto, announced)
